@@ -595,7 +595,9 @@ func (sw *SessionWindow) SetCallback(callback func([]types.Row)) {
 // held (the "Locked" convention — re-entering the non-reentrant mutex would
 // deadlock). Returns true if the event was absorbed into a triggered session.
 func (sw *SessionWindow) handleLateData(row types.Row) bool {
-	for _, info := range sw.triggeredSessions {
+	// triggeredSessions is keyed by session key: only the row's own key may absorb it.
+	key := extractSessionCompositeKey(row.Data, sw.config.GroupByKeys)
+	if info, ok := sw.triggeredSessions[key]; ok {
 		if info.session.slot.Contains(row.Timestamp) {
 			// Append the late event before re-emitting so the update includes it.
 			info.session.data = append(info.session.data, row)
